@@ -121,10 +121,18 @@ int poll_wait(poll_priv_t *priv, const int timeout) {
 
 ev_src_t *poll_recv(poll_priv_t *priv, const int idx) {
     GET_PRIV_DATA();
+    ev_src_t *src = (ev_src_t *)ep->pevents[idx].data.ptr;
     if (ep->pevents[idx].events & EPOLLERR) {
-        return NULL;
+        /*
+         * An error condition on a descriptor registered by the user is for the user to see
+         * (reading from it reports the error): swallowing it here would leave the
+         * descriptor ready for ever, with the loop spinning on it.
+         */
+        if (!src || src->type != M_SRC_TYPE_FD) {
+            return NULL;
+        }
     }
-    return (ev_src_t *)ep->pevents[idx].data.ptr;
+    return src;
 }
 
 int poll_get_fd(const poll_priv_t *priv) {
